@@ -6,7 +6,13 @@ PID = 'C07'
 
 def items():
     from contracts import armor          # 'in binary or armored form'
-    return pubexport.scenarios() + [s for s in usage.scenarios() + fingerprints.scenarios() + armor.scenarios() if PID in getattr(s, 'props', ())]
+    from contracts import packets, tpk    # the public key is made of COPIES of the signatures and identities: what a copy carries
+    seen, out = set(), []
+    for s in pubexport.scenarios() + [s for s in usage.scenarios() + fingerprints.scenarios() + armor.scenarios() + packets.scenarios() + tpk.scenarios() if PID in getattr(s, 'props', ())]:
+        if s.cid not in seen:
+            seen.add(s.cid)
+            out.append(s)
+    return out
 
 
 def run(tier='quick', seed=0, only=None):
